@@ -73,6 +73,10 @@ def parseNextWord (s : Str) : Str × Nat :=
 structure Syms where
   prims : List Sym      -- grammar.primitives_used()  (a set)
   vars : List Sym       -- grammar.variables()       (order of first use)
+  /-- the code WITH fixes_proposed/C05-F3.diff (`varN` looked up by its number) -/
+  fixF3 : Bool := false
+  /-- the code WITH fixes_proposed/C05-F4.diff (brackets stripped before the `_` test and in `^…`) -/
+  fixF4 : Bool := false
   deriving Repr
 
 def varName (v : Sym) : Str := "var".toList ++ (toString v.idx).toList
@@ -88,7 +92,7 @@ def isStripParen (c : Char) : Bool := c = '(' || c = ')' || c = '{' || c = '}'
 
 /-- `__str_to_derivable_program__` (:170-190) -/
 def str2dp (Sy : Syms) (word : Str) : Option (List Sym) :=
-  if word = ['_'] then some (Sy.prims ++ Sy.vars) else
+  if (if Sy.fixF4 then stripChars isStripParen word else word) = ['_'] then some (Sy.prims ++ Sy.vars) else
   let w := stripChars isStripParen word
   let allowed := (splitOn ',' w).eraseDups        -- `[word]` when there is no separator
   let prims := Sy.prims.filter (fun P => allowed.contains P.name.toList)
@@ -100,7 +104,9 @@ def str2dp (Sy : Syms) (word : Str) : Option (List Sym) :=
       if startsWith "var".toList el then
         match parseNat (el.drop 3) with
         | none => none                              -- ValueError
-        | some k => match svar[k]? with
+        | some k =>
+          if Sy.fixF3 then some (ps ++ Sy.vars.filter (fun v => v.idx = k)) else
+          match svar[k]? with
           | none => none                            -- IndexError
           | some v => some (ps ++ [v])
       else some ps) (some prims)
@@ -111,7 +117,7 @@ def isSpace (c : Char) : Bool := c = ' ' || c = '\t' || c = '\n' || c = '\r'
 def interpretWord (Sy : Syms) (word0 : Str) : Option (Tok Sym) :=
   let word := stripChars isSpace word0
   if startsWith ['^'] word then
-    let forbidden := splitOn ',' (word.drop 1)
+    let forbidden := splitOn ',' (if Sy.fixF4 then stripChars isStripParen (word.drop 1) else word.drop 1)
     let out := Sy.prims.filter (fun P => !forbidden.contains P.name.toList) ++
                Sy.vars.filter (fun V => !forbidden.contains (varName V))
     if out.length = Sy.prims.length + Sy.vars.length then some .any else some (.allow out)
